@@ -65,6 +65,8 @@ def _gen_big(seed, rng):
     step = {"argv": A.argv_of(opts, names), "clock": "2024-05-05T05:05:05", "observe": obs, "cwd": ".",
             "pool": {"n": rng.pick([2, 3, 4, 8]), "key": rng.randrange(1 << 30)}}
     hs = rng.sample(range(8), 2)
+    if rng.chance(0.5):
+        step["nofile"] = rng.pick([40, 48, 64])  # a small descriptor table: every file opened has to be closed again
     steps = [dict(step), dict(step, pool={"n": rng.pick([2, 3, 5]), "key": rng.randrange(1 << 30)})]
     return {"prop": PROP, "seed": seed, "world": {"files": files}, "metas": metas, "opts": opts, "family": "poison",
             "poison": tok, "usage": None, "named_dirs": None, "big": True,
@@ -131,6 +133,7 @@ def gen_case(seed, tier, index=0):
     extra = []
     usage = None
     links, hardlinks, alias_names = [], [], []
+    tail = False
     if family == "poison":
         tok = rng.pick(sorted(POISON))
         if rng.chance(0.7):
@@ -140,8 +143,13 @@ def gen_case(seed, tier, index=0):
                 toks = [G.STYLES[opts["style"]][2][2]] if G.STYLES[opts["style"]][2][2] else toks
             if toks:
                 tok = rng.pick(sorted(toks))
-        where = rng.pick(["holder", "holder", "contributor"])
-        if where == "holder":
+        where = rng.pick(["holder", "holder", "contributor", "tail"])
+        if where == "tail":
+            # a holder that is a ready-made notice and ENDS in the terminator: it cannot be read back from any kind of
+            # header (the reader strips every style's terminator), so every file of the batch must be refused
+            tail = True
+            opts["holders"] = opts["holders"] + [f"{rng.pick(['Copyright', 'SPDX-FileCopyrightText:', 'Copyright (C)'])} 2019 Evil Corp {tok}"]
+        elif where == "holder":
             opts["holders"] = opts["holders"] + [POISON[tok]]
         else:
             opts["contributors"] = (opts.get("contributors") or []) + [POISON[tok]]
@@ -257,7 +265,7 @@ def gen_case(seed, tier, index=0):
     if hardlinks:
         world["hardlinks"] = hardlinks
     return {"prop": PROP, "seed": seed, "world": world, "metas": metas, "opts": opts, "family": family,
-            "poison": case_poison, "usage": usage, "named_dirs": named_dirs,
+            "poison": case_poison, "usage": usage, "named_dirs": named_dirs, "poison_tail": tail,
             "variants": [{"hashseed": hs[0], "steps": [dict(step)]}, {"hashseed": hs[1], "steps": [dict(step)]}]}
 
 
@@ -303,7 +311,9 @@ def predict(case):
                     fail = bool(opts["licenses"]) or existing_lic
                 elif t == "nocopyright":
                     fail = bool(opts["holders"]) or (findable and "SPDX-FileCopyrightText" in text)
-            if case["family"] == "poison" and eff_style:
+            if case["family"] == "poison" and case.get("poison_tail"):
+                fail = True
+            elif case["family"] == "poison" and eff_style:
                 single, _, (start, mid, end), *_ = G.STYLES[eff_style]
                 multi = (not single) or (opts.get("multi_line") and start and end)
                 if multi and end and end in POISON[case["poison"]]:
